@@ -874,6 +874,8 @@ pub fn effect_name(e: &Effect) -> &'static str {
         Effect::MapSet { .. } => "map_set",
         Effect::MapRemove { .. } => "map_remove",
         Effect::MapClear { .. } => "map_clear",
+        Effect::Quote { .. } => "quote",
+        Effect::Link { .. } => "link",
         Effect::Nop => "nop",
     }
 }
